@@ -225,8 +225,8 @@ func genLineFilter(r *rand.Rand, hostile bool) Stage {
 		tok = hostileTails[r.Intn(len(hostileTails))]
 	}
 	s := Stage{Kind: "line", Op: op, Val: tok, Ticked: r.Intn(4) == 0}
-	if r.Intn(12) == 0 && (op == "|=" || op == "|~") {
-		s.Val = "" // the empty filter query builders emit: keeps every line
+	if r.Intn(12) == 0 {
+		s.Val = "" // the empty filter query builders emit: |= and |~ keep every line, != and !~ none
 		return s
 	}
 	if op == "|~" || op == "!~" {
